@@ -23,6 +23,7 @@ import (
 	"os"
 	"path"
 	"path/filepath"
+	"strconv"
 	"strings"
 	"sync"
 	"time"
@@ -241,9 +242,13 @@ func CompareVersion(v1, v2 string) int {
 		return 1
 	}
 
-	if parts1[1] < parts2[1] {
+	// the nanosecond part is not zero padded ("2001" is later than "6"), compare it as a number
+	nanos1, _ := strconv.Atoi(parts1[1])
+	nanos2, _ := strconv.Atoi(parts2[1])
+
+	if nanos1 < nanos2 {
 		return -1
-	} else if parts1[1] > parts2[1] {
+	} else if nanos1 > nanos2 {
 		return 1
 	}
 
